@@ -26,3 +26,24 @@ PROPS = {
 
 def race_violations(outs, prop):
     return {}
+
+SIM_NOTE = ("Trusted base: Go 1.26.8 testing/synctest, the simulator (seeded scheduler, in-memory network, store/JWKS seam wrappers), the strict IdP model with "
+            "std-lib JOSE, miniredis, the reference oracles. Evidence over sampled plans, not proof. Envoy, browsers, IdP, Redis server and Kubernetes are stubs.")
+
+MANIFEST_TEXT = {
+    "C03": {"technique": "deterministic simulation: seeded configurations x IdP behaviours x URLs, redirect-following browser, bounded-liveness oracle (step budget)",
+            "level_text": "Seeded exploration of the composed login flow (real loader, handler, stores, HTTP client against a strict IdP model) on a fake clock: every run must reach OK "
+                          "in exactly redirect/callback/OK with one authorization request, byte-identical return URL and the provider's tokens, and stay OK inside token lifetime. "
+                          "Exploration is the right level: the quantifier is a large product of configurations, provider shapes and URLs that is sampled, with the boolean core enumerated.",
+            "level_note": SIM_NOTE},
+}
+
+PENDING = "check not built yet in this round (planned, see DESIGN.md §6)"
+NOT_APPLICABLE = {
+    "C07": "pure function of (rule set, request target): no schedule, clock, fault or second party for a simulator to control; input enumeration is a different technique (DESIGN.md §7). Side coverage only through C01/C03 worlds whose targets carry queries.",
+    "C08": "pure function of (chain list, flag, headers): no schedule, clock, fault or interleaving (DESIGN.md §7). Multi-chain worlds are exercised by C18/C01 but the bounded-exhaustive quantifier is not what simulation samples.",
+    "C17": "pure function of the configuration file content (one read, no concurrency, no time): grammar/mutation-based input generation is a different technique (DESIGN.md §7). Every simulated run boots through the real loader as side coverage.",
+}
+for _p in ["C01", "C02", "C04", "C05", "C06", "C09", "C10", "C11", "C12", "C13", "C14", "C15", "C16", "C18", "C19", "C20"]:
+    if _p not in PROPS:
+        NOT_APPLICABLE[_p] = PENDING
